@@ -8,7 +8,21 @@ reference timeline and checks its invariants). The driver runs the *same* worklo
 bound, periodic speed profiles) and every finish date must equal the prediction (1e-9), hence the configurations agree
 with each other; the finish dates of the configurations are also compared pairwise.
 
-Mutations tried (tools/mutbuild.sh, quick tier): see the end of this docstring (filled in after the experiments)
+Known deviations (KNOWN_FINDINGS.jsonl), both of cpu/optim:TI only, reported when Lazy and Full all meet the prediction:
+  C19:TI:suspend-resume-priority              a suspend / resume / priority change hits a running execution (TI does not
+                                              update the remaining work first; may also abort on a NaN)
+  C19:TI:speed-profile-first-point-after-0    periodic speed profile whose first point is after date 0
+  C19:Lazy:priority-set-to-same-value         cpu/optim:Lazy only, reported when every Full run meets the prediction: the
+                                              priority of a running execution is set to the value it already has
+                                              (Action::set_sharing_penalty removes the action from the heap of completion
+                                              events; the LMM sees no change, so nothing re-inserts it: it completes late)
+These signatures are keyed on the input class (the TI arithmetic itself is not modelled by a variant of the
+reference): a TI workload in neither class, and every Lazy/Full run, is checked strictly.
+proposed/fix-C19-ti-remaining.diff was applied to a scratch tree: every suspend-resume-priority mismatch of the
+development run (7 of 25 workloads) disappeared, the 2 speed-profile ones remained.
+
+Mutations: three were prepared (CpuTiProfile integral, priority change ignored by Full, remaining not updated on suspend
+in Lazy) but NOT run (the machine was heavily loaded; the coordinator stopped the mutation experiments before the whole list was run).
 """
 import json
 from fractions import Fraction as F
@@ -137,6 +151,21 @@ def ti_event_in_flight(sc, fin):
     return False
 
 
+def noop_setprio_in_flight(sc, fin):
+    """a priority change to the value the running execution already has (reference dates)"""
+    prio = {i + 1: a["prio"] for i, a in enumerate(sc["acts"])}
+    hit = False
+    for e in sc["events"]:
+        if e["op"] != "setprio":
+            continue
+        a = sc["acts"][e["a"] - 1]
+        if a["kind"] == "exec" and a["start"] < e["t"] < S.frac(fin["fin"][e["a"] - 1]):
+            if prio[e["a"]] == e["v"]:
+                hit = True
+            prio[e["a"]] = e["v"]
+    return hit
+
+
 def finish_vector(sc, recs):
     acts = S.acts_of(recs)
     return [(acts[i + 1]["state"], acts[i + 1]["finish"]) if i + 1 in acts else None for i in range(len(sc["acts"]))]
@@ -144,7 +173,7 @@ def finish_vector(sc, recs):
 
 def run(ctx):
     import os
-    n = 60 if ctx.quick else 1200
+    n = 40 if ctx.quick else 600
     if os.environ.get("SURF_DEV_N"):
         n = int(os.environ["SURF_DEV_N"])
     scens = [gen_scenario(ctx.rng) for _ in range(n)]
@@ -187,6 +216,18 @@ def run(ctx):
             ok_cfgs = [" ".join(jobs[x][1][3:]) for x in by_scen[i] if not S.compare_acts(sc, fin[i], results[x])]
             _, c, nn = owner[j]
             others_ok = all(not S.compare_acts(sc, fin[i], results[x]) for x in by_scen[i] if owner[x][1][0] != "TI")
+            full_ok = all(not S.compare_acts(sc, fin[i], results[x]) for x in by_scen[i] if owner[x][1][0] == "Full")
+            if c[0] == "Lazy" and full_ok and noop_setprio_in_flight(sc, fin[i]):
+                ctx.violation("cpu/optim:Lazy disagrees with the prediction and with Full on a workload in which the priority of a "
+                              "running execution is set to the value it already has: " + bad2[0],
+                              files={"scenario.json": json.dumps(S.scen_json(sc)), "scenario.txt": jobs[j][0],
+                                     "howto.txt": ".build/harness/surf_driver scenario.txt %s\n" % " ".join(jobs[j][1]),
+                                     "output.ndjson": "\n".join(json.dumps(x) for x in recs2) + "\n",
+                                     "reference.json": json.dumps({"fin": fin[i]})},
+                              signature="C19:Lazy:priority-set-to-same-value", detail=json.dumps(brief(sc)) + "\n" + "\n".join(bad2[:20]))
+                ctx.cov["known_finding_workloads"] = ctx.cov.get("known_finding_workloads", 0) + 1
+                reported = True
+                break
             comps = []
             if ti_event_in_flight(sc, fin[i]):
                 comps.append("suspend-resume-priority")
